@@ -16,6 +16,14 @@ whose `Type` callback is the constant one.  What remains per function (that its 
 `Type`/`Impl` code never panics, and that a dynamic `Type` callback is monotone) is
 proved where the callbacks are modelled (C13, C14) and otherwise only searched by the
 harness (`harness/c11.go`), which says so in the evidence.
+
+END-TO-END totality (`call_total_<f>`: `Fn.Call` on ANY list of well-formed values returns a value
+or an ordinary error) is proved for 43 functions: `hasindex` (slice d11) and, in slice d11b, `keys`,
+`values`, `reverse`, `coalescelist`, `compact`, `chunklist`, `index`, `range`, `assertnotnull`, the 16 number / bool
+functions of `D11b.table`, the 15 string / time functions of `D11b.glueTable` (for every library) and `log`, `pow`
+(for every answer of the math library).
+`merge` is a counterexample (`call_total_merge_counterexample`).  For all other functions the
+clause is searched by the harness only.
 -/
 import CtyModel.Lemmas.StdProto
 import CtyModel.Lemmas.StdOblType
@@ -23,6 +31,12 @@ import CtyModel.Lemmas.StdOblTable
 import CtyModel.Lemmas.d11Alloc
 import CtyModel.Lemmas.d11Table
 import CtyModel.Lemmas.d11Total
+import CtyModel.Lemmas.d11bColl
+import CtyModel.Lemmas.d11bNum
+import CtyModel.Lemmas.d11bSeq
+import CtyModel.Lemmas.d11bStr
+import CtyModel.Lemmas.d11bIndex
+import CtyModel.Lemmas.d11bMisc
 import CtyModel.Props.C10
 namespace CtyModel
 namespace C11
@@ -593,6 +607,264 @@ example : (match (call Stdlib.hasIndexSpec Stdlib.hasIndexType Stdlib.hasIndexIm
     [(⟨.list .string, .seq [.s "a"]⟩ : Value), Value.intVal 0]).1 with
     | .ok v => (match v.v with | .b true => true | _ => false)
     | _ => false) = true := by decide
+
+
+/-! ### more functions, end to end (second deepening, lemmas in `Lemmas/d11b*.lean`)
+
+Each theorem below is `call_total_of_obligations` with all four hypotheses PROVED for the function's
+modelled callbacks (`Stdlib/Collection.lean`, tied to the code by the `std.call`/`std.callm`
+correspondence of C13 and by the `d11b.call` correspondence of this check on C11's own argument
+generator): `XFunc.Call(args)` on well-formed values — ANY number of them, of any type, null, unknown,
+marked (at any depth) or dynamically typed — returns a value or an ordinary error; never a Go panic,
+never a `PanicError`.  `E` is the environment of answers from other packages (set iteration order,
+`convert`): the theorems hold for EVERY environment. -/
+
+/-- **`keys` is total** (collection.go `KeysFunc`) -/
+theorem call_total_keys (nfc : String → Bool) (args : List Value) (hargs : ∀ a ∈ args, a.WF nfc = true) :
+    (∀ w, (call Stdlib.keysSpec Stdlib.keysType Stdlib.keysImpl args).1 ≠ .panic w) ∧
+    (∀ w, (call Stdlib.keysSpec Stdlib.keysType Stdlib.keysImpl args).1 ≠ .err (.panicError w)) :=
+  Stdlib.call_total_keys args hargs
+
+/-- **`values` is total** (collection.go `ValuesFunc`) -/
+theorem call_total_values (nfc : String → Bool) (E : Stdlib.Env) (args : List Value) (hargs : ∀ a ∈ args, a.WF nfc = true) :
+    (∀ w, (call Stdlib.valuesSpec Stdlib.valuesType (Stdlib.valuesImpl E) args).1 ≠ .panic w) ∧
+    (∀ w, (call Stdlib.valuesSpec Stdlib.valuesType (Stdlib.valuesImpl E) args).1 ≠ .err (.panicError w)) :=
+  Stdlib.call_total_values E args hargs
+
+/-- **`reverse` is total** (collection.go `ReverseListFunc`; lists, sets — also sets that are not wholly
+known — and tuples) -/
+theorem call_total_reverse (nfc : String → Bool) (E : Stdlib.Env) (args : List Value) (hargs : ∀ a ∈ args, a.WF nfc = true) :
+    (∀ w, (call Stdlib.reverseSpec Stdlib.reverseType (Stdlib.reverseImpl E) args).1 ≠ .panic w) ∧
+    (∀ w, (call Stdlib.reverseSpec Stdlib.reverseType (Stdlib.reverseImpl E) args).1 ≠ .err (.panicError w)) :=
+  Stdlib.call_total_reverse E args hargs
+
+/-- **`coalescelist` is total** (collection.go `CoalesceListFunc`, variadic: any number of arguments,
+null / unknown / dynamically typed ones allowed by the parameter).  The `Type` callback stops at the
+first unknown argument WITHOUT having looked at the later ones; `Impl` is safe all the same because it
+stops there too (`Stdlib.clPre`). -/
+theorem call_total_coalescelist (nfc : String → Bool) (args : List Value) (hargs : ∀ a ∈ args, a.WF nfc = true) :
+    (∀ w, (call Stdlib.coalesceListSpec Stdlib.coalesceListType Stdlib.coalesceListImpl args).1 ≠ .panic w) ∧
+    (∀ w, (call Stdlib.coalesceListSpec Stdlib.coalesceListType Stdlib.coalesceListImpl args).1 ≠ .err (.panicError w)) :=
+  Stdlib.call_total_coalesceList args hargs
+
+/-- **`compact` is total** (collection.go `CompactFunc`; nulls and empty strings inside the list, a list
+that is not wholly known) -/
+theorem call_total_compact (nfc : String → Bool) (E : Stdlib.Env) (args : List Value) (hargs : ∀ a ∈ args, a.WF nfc = true) :
+    (∀ w, (call Stdlib.compactSpec Stdlib.compactType (Stdlib.compactImpl E) args).1 ≠ .panic w) ∧
+    (∀ w, (call Stdlib.compactSpec Stdlib.compactType (Stdlib.compactImpl E) args).1 ≠ .err (.panicError w)) :=
+  Stdlib.call_total_compact E args hargs
+
+/-- **`chunklist` is total** (collection.go `ChunklistFunc`: marked list and size, negative / zero / fractional /
+huge sizes, empty lists).  The final `cty.ListVal(output)` would panic on an empty slice: it never is, because
+the last element always closes a chunk (`Stdlib.chunkLoop_good`). -/
+theorem call_total_chunklist (nfc : String → Bool) (E : Stdlib.Env) (args : List Value) (hargs : ∀ a ∈ args, a.WF nfc = true) :
+    (∀ w, (call Stdlib.chunklistSpec Stdlib.chunklistType (Stdlib.chunklistImpl E) args).1 ≠ .panic w) ∧
+    (∀ w, (call Stdlib.chunklistSpec Stdlib.chunklistType (Stdlib.chunklistImpl E) args).1 ≠ .err (.panicError w)) :=
+  Stdlib.call_total_chunklist E args hargs
+
+/-- **`index` is total** (collection.go `IndexFunc`; declares no `RefineResult`).  Its `Impl` makes a NESTED protocol
+call — `HasIndex(args[0], args[1])` is `HasIndexFunc.Call` — and reads the answer with `.True()`, which panics on an
+unknown or marked boolean: the nested call answers a KNOWN boolean on the arguments `index` is handed
+(`Stdlib.hasIndex_call_known_d11b`, `Stdlib.hasIndexU_unk`), `Index` is then applied only where `HasIndex` said true, and
+its result has the type the `Type` callback predicted from the VALUE of the key (`gocty.FromCtyValue` and the key
+arithmetic of `Index` read the same whole number: `Stdlib.keyIndex_of_fromCtyInt`). -/
+theorem call_total_index (nfc : String → Bool) (args : List Value) (hargs : ∀ a ∈ args, a.WF nfc = true) :
+    (∀ w, (call Stdlib.indexSpec Stdlib.indexType Stdlib.indexImpl args).1 ≠ .panic w) ∧
+    (∀ w, (call Stdlib.indexSpec Stdlib.indexType Stdlib.indexImpl args).1 ≠ .err (.panicError w)) :=
+  Stdlib.call_total_index args hargs
+
+/-- **`range` is total** (sequence.go `RangeFunc`: one, two or three numbers; zero, infinite, fractional steps;
+infinite start or end; more than 1024 values — ordinary errors or a list) -/
+theorem call_total_range (nfc : String → Bool) (E : Stdlib.Env) (args : List Value) (hargs : ∀ a ∈ args, a.WF nfc = true) :
+    (∀ w, (call Stdlib.rangeSpec Stdlib.rangeType (Stdlib.rangeImpl E) args).1 ≠ .panic w) ∧
+    (∀ w, (call Stdlib.rangeSpec Stdlib.rangeType (Stdlib.rangeImpl E) args).1 ≠ .err (.panicError w)) :=
+  Stdlib.call_total_range E args hargs
+
+/-- … and the fuel that makes the model's generating loop structurally recursive is never used up: started
+as `Impl` starts it the loop answers a list or the "more than 1024 values" error, never `.unmodelled` — the
+theorem above is not true for the wrong reason -/
+theorem range_fuel_suffices (down : Bool) (stop step x : Num) (hf : Stdlib.isFin step = true) :
+    Stdlib.rangeLoop down (Value.numVal stop) (Value.numVal step) 1025 (Value.numVal x) [] ≠ .unmodelled := by
+  simpa using Stdlib.rangeLoop_fuel_suffices down stop step hf 1025 x [] (by simp) (by simp)
+
+/-- **The string functions that are `cty.StringVal ∘ library` are total, for EVERY library**: `upper`, `lower`,
+`reverse` (of a string), `title`, `trimspace`, `chomp`, `trim`, `trimprefix`, `trimsuffix`, `replace`,
+`regex_replace`, `split`, `indent`, `substr`, `timeadd` (string.go, string_replace.go, regexp.go, datetime.go; protocol instances over
+the `Impl` models of C14, `D11b.glueTable`).  `L` stands for the Go standard library, x/text's NFC and the
+grapheme-cluster scanner: no law of the library is assumed — whatever strings it returns, `Call` on
+well-formed arguments of any kind returns a value or an ordinary error.  (That the LIBRARY call itself does
+not panic on the arguments cty passes is not part of this statement: `strings.Repeat` in `indent` is covered
+by `indent_total` above, the others take arbitrary strings.) -/
+theorem call_total_string_functions (nfc : String → Bool) :
+    ∀ e ∈ D11b.glueTable, ∀ (L : StdNum.Lib) (E : Stdlib.Env) (args : List Value), (∀ a ∈ args, a.WF nfc = true) →
+      (∀ w, (call (e.2.2.2 L).spec ((e.2.2.2 L).tf E) ((e.2.2.2 L).impl E) args).1 ≠ .panic w) ∧
+      (∀ w, (call (e.2.2.2 L).spec ((e.2.2.2 L).tf E) ((e.2.2.2 L).impl E) args).1 ≠ .err (.panicError w)) :=
+  fun e he L => D11b.callTotal_glueTable e he L
+
+/-- **`log` and `pow` are total, whatever the math library answers** (number.go `LogFunc`, `PowFunc`; `lib` stands for
+`math.Log(num)/math.Log(base)` resp. `math.Pow`, a float64 that may be NaN: a NaN answer is an ordinary error, an
+argument outside float64 is an ordinary error, `cty.NumberFloatVal` is never handed a NaN) -/
+theorem call_total_log_pow (nfc : String → Bool) :
+    ∀ e ∈ D11b.mathTable, ∀ (lib : Num → Num → StdNum.F64) (E : Stdlib.Env) (args : List Value), (∀ a ∈ args, a.WF nfc = true) →
+      (∀ w, (call (e.2.2 lib).spec ((e.2.2 lib).tf E) ((e.2.2 lib).impl E) args).1 ≠ .panic w) ∧
+      (∀ w, (call (e.2.2 lib).spec ((e.2.2 lib).tf E) ((e.2.2 lib).impl E) args).1 ≠ .err (.panicError w)) :=
+  fun e he lib => D11b.callTotal_mathTable e he lib
+
+/-- **`assertnotnull` is total** (conversion.go `AssertNotNullFunc`; `Type` answers the argument's type, `Impl` the
+argument, the protocol refuses null) … -/
+theorem call_total_assertnotnull (nfc : String → Bool) (args : List Value) (hargs : ∀ a ∈ args, a.WF nfc = true) :
+    (∀ w, (call D11b.assertNotNullF.spec D11b.assertNotNullType D11b.assertNotNullImpl args).1 ≠ .panic w) ∧
+    (∀ w, (call D11b.assertNotNullF.spec D11b.assertNotNullType D11b.assertNotNullImpl args).1 ≠ .err (.panicError w)) :=
+  D11b.callTotal_assertNotNull {} args hargs
+
+/-- … and its `Type` callback — one of the six that `unmodelled_type_callbacks` lists as not covered by the
+table-wide monotonicity theorem — is monotone: with `type_only_prediction_sound`, a type checker working with
+placeholders never contradicts `assertnotnull` -/
+theorem typeMono_assertnotnull : TypeMono D11b.assertNotNullType := D11b.typeMono_assertNotNull
+
+theorem string_functions_listed :
+    D11b.glueTable.map (·.2.1) = ["UpperFunc", "LowerFunc", "ReverseFunc", "TitleFunc", "TrimSpaceFunc", "ChompFunc",
+      "TrimFunc", "TrimPrefixFunc", "TrimSuffixFunc", "ReplaceFunc", "RegexReplaceFunc", "SplitFunc", "IndentFunc",
+      "SubstrFunc", "TimeAddFunc"] := by decide
+
+theorem string_functions_static :
+    ∀ e ∈ D11b.glueTable, ∃ T, staticTy? e.2.2.1 = some T ∧ ∀ L E as, (e.2.2.2 L).tf E as = .ok T := D11b.glueTable_static
+
+/-- **The statically typed number and bool functions `signum`, `ceil`, `floor`, `int`, `abs` (`AbsoluteFunc`),
+`neg` (`NegateFunc`), `min`, `max`, `not`, `and`, `or`, `add`, `subtract`, `multiply`, `divide`, `modulo`
+are total** (number.go, bool.go; the protocol
+instances of `Stdlib/d11bFuncs.lean` over the `Impl` models of C14, compared with the code by the
+`d11b.call` correspondence): for every entry of `D11b.table`, `Call` on well-formed values — any
+number of them, of any type, null, unknown, marked or dynamically typed — returns a value or an
+ordinary error.  (`min()` / `max()` without arguments, `int(±Inf)`, and the `big.ErrNaN` cases of the
+arithmetic — `Inf - Inf`, `0 * Inf`, `0 / 0`, `Inf / Inf`, `Inf % 0` — are ordinary errors; `modulo` never asks
+`Int` of an infinite quotient.) -/
+theorem call_total_number_bool_functions (nfc : String → Bool) :
+    ∀ e ∈ D11b.table, ∀ (E : Stdlib.Env) (args : List Value), (∀ a ∈ args, a.WF nfc = true) →
+      (∀ w, (call e.2.2.2.spec (e.2.2.2.tf E) (e.2.2.2.impl E) args).1 ≠ .panic w) ∧
+      (∀ w, (call e.2.2.2.spec (e.2.2.2.tf E) (e.2.2.2.impl E) args).1 ≠ .err (.panicError w)) :=
+  fun e he => D11b.callTotal_table e he
+
+/-- … which functions these are -/
+theorem number_bool_functions_listed :
+    D11b.table.map (·.2.1) = ["SignumFunc", "CeilFunc", "FloorFunc", "IntFunc", "AbsoluteFunc", "NegateFunc",
+      "MinFunc", "MaxFunc", "NotFunc", "AndFunc", "OrFunc", "AddFunc", "SubtractFunc", "MultiplyFunc", "DivideFunc",
+      "ModuloFunc"] := by decide
+
+/-- … one of them spelled out: `min` -/
+theorem call_total_min (nfc : String → Bool) (args : List Value) (hargs : ∀ a ∈ args, a.WF nfc = true) :
+    (∀ w, (call (D11b.specVar D11b.pNumD) (D11b.staticTf .number) (D11b.implOf StdNum.minImpl) args).1 ≠ .panic w) ∧
+    (∀ w, (call (D11b.specVar D11b.pNumD) (D11b.staticTf .number) (D11b.implOf StdNum.minImpl) args).1 ≠ .err (.panicError w)) :=
+  D11b.callTotal_table ("min", "MinFunc", "cty.Number", D11b.minF)
+    (by unfold D11b.table; repeat (first | exact List.Mem.head _ | apply List.Mem.tail)) {} args hargs
+
+/-- their `Type` callback is the constant one of the static type the SOURCE declares (regenerated
+syntax table) -/
+theorem number_bool_functions_static :
+    ∀ e ∈ D11b.table, ∃ T, staticTy? e.2.2.1 = some T ∧ ∀ E as, e.2.2.2.tf E as = .ok T := D11b.table_static
+
+set_option maxRecDepth 16384 in
+/-- **the model specs ARE the regenerated table entries**: for every function proved total above, the
+parameter declarations of the model spec (types and the four `Allow*` flags of every parameter, the
+variadic parameter) are those the BUILT code reports (`Generated.stdlibSpecs`), the declared static type
+and the declared `RefineResult` (`refineNonNull`, or none: `index`, `timeadd`) are what the SOURCE says
+(`Generated.stdlibSyntax`).  (It has already refused a wrong model spec: `timeadd` with `refineNonNull`.) -/
+theorem d11b_specs_are_table_entries :
+    (D11b.table.all fun e =>
+      match Std.find? e.2.1, Std.syntax? e.2.1 with
+      | some s, some sy => D11b.specMatches e.2.2.2.spec s && (sy.staticType == some e.2.2.1) &&
+          (sy.refine == "refineNonNull") && e.2.2.2.spec.refine.isSome
+      | _, _ => false) = true ∧
+    (D11b.glueTable.all fun e =>
+      match Std.find? e.2.1, Std.syntax? e.2.1 with
+      | some s, some sy => D11b.specMatches (e.2.2.2 D11b.idLib).spec s && (sy.staticType == some e.2.2.1) &&
+          ((sy.refine == "refineNonNull") == (e.2.2.2 D11b.idLib).spec.refine.isSome) &&
+          ((sy.refine == "none") == (e.2.2.2 D11b.idLib).spec.refine.isNone)
+      | _, _ => false) = true ∧
+    (D11b.mathTable.all fun e =>
+      match Std.find? e.2.1, Std.syntax? e.2.1 with
+      | some s, some sy => D11b.specMatches (e.2.2 fun _ _ => .nan).spec s && (sy.staticType == some "cty.Number") &&
+          (sy.refine == "refineNonNull") && (e.2.2 fun _ _ => .nan).spec.refine.isSome
+      | _, _ => false) = true ∧
+    (D11b.dynTable.all fun e =>
+      match Std.find? e.2.1, Std.syntax? e.2.1 with
+      | some s, some sy => D11b.specMatches e.2.2.spec s && sy.staticType.isNone &&
+          ((sy.refine == "refineNonNull") == e.2.2.spec.refine.isSome)
+      | _, _ => false) = true ∧
+    (D11b.collTable.all fun e =>
+      match Stdlib.byName e.1, Std.find? e.2, Std.syntax? e.2 with
+      | some f, some s, some sy => D11b.specMatches f.spec s && ((sy.refine == "refineNonNull") == f.spec.refine.isSome) &&
+          ((sy.refine == "none") == f.spec.refine.isNone)
+      | _, _, _ => false) = true := by
+  refine ⟨?_, ?_, ?_, ?_, ?_⟩ <;> decide
+
+/-- the hypothesis of the totality theorems is met by non-trivial argument lists, and the calls do
+something: `min(3, -2)` answers a negative number; a map under a mark is a well-formed argument of `keys` -/
+example : (match (call (D11b.specVar D11b.pNumD) (D11b.staticTf .number) (D11b.implOf StdNum.minImpl)
+    [Value.intVal 3, Value.intVal (-2)]).1 with
+    | .ok v => (match v.v with | .n x => x.signbit | _ => false)
+    | _ => false) = true := by decide
+example : ∀ a ∈ [(⟨.map .number, .marked ["m"] (.smap ["a"] [.n (.fin false 1 0 64)])⟩ : Value)], a.WF (fun _ => true) = true := by decide
+
+/-! ### `merge`: the totality clause is FALSE of the code
+
+Recorded finding `panic-error:does-not-conform:MergeFunc` (known_findings.json; reproduced by the harness on every run):
+the `Type` callback counts the attributes of a NULL object argument into the predicted type, `Impl` skips null
+arguments, so the value `Impl` returns does not conform to the type it was given and `Call` reports an internal panic. -/
+
+/-- `merge`: the full statement -/
+def CallTotalMerge : Prop :=
+  ∀ (nfc : String → Bool) (E : Stdlib.Env) (args : List Value), (∀ a ∈ args, a.WF nfc = true) →
+    (∀ w, (call Stdlib.mergeSpec Stdlib.mergeType (Stdlib.mergeImpl E) args).1 ≠ .panic w) ∧
+    (∀ w, (call Stdlib.mergeSpec Stdlib.mergeType (Stdlib.mergeImpl E) args).1 ≠ .err (.panicError w))
+
+/-- the witness `merge(null object{d = bool})` -/
+def mergeNullArg : List Value := [⟨.object ["d"] [.bool] [false], .null⟩]
+
+theorem call_total_merge_counterexample_witness :
+    (∀ a ∈ mergeNullArg, a.WF (fun _ => true) = true) ∧
+    (match (call Stdlib.mergeSpec Stdlib.mergeType (Stdlib.mergeImpl {}) mergeNullArg).1 with
+      | .err (.panicError _) => true
+      | _ => false) = true := by
+  constructor <;> decide
+
+theorem call_total_merge_counterexample : ¬ CallTotalMerge := fun h => by
+  have h2 := (h (fun _ => true) {} mergeNullArg call_total_merge_counterexample_witness.1).2
+  have hw := call_total_merge_counterexample_witness.2
+  cases hc : (call Stdlib.mergeSpec Stdlib.mergeType (Stdlib.mergeImpl {}) mergeNullArg).1 with
+  | err e =>
+    cases e with
+    | panicError w => exact h2 w hc
+    | _ => rw [hc] at hw; cases hw
+  | _ => rw [hc] at hw; cases hw
+
+/-! ### bookkeeping: which exported functions have an end-to-end totality theorem -/
+
+/-- the Go variables of the functions with a `call_total` theorem above -/
+def totalityProved : List String :=
+  D11b.collTable.map (·.2) ++ D11b.table.map (·.2.1) ++ D11b.glueTable.map (·.2.1) ++ D11b.mathTable.map (·.2.1) ++
+    D11b.dynTable.map (·.2.1)
+
+/-- the exported functions WITHOUT one: for them "never a panic, never a PanicError" is searched by the
+harness only (`merge` is a proved counterexample) -/
+def totalityOnlySearched : List String :=
+  (Generated.stdlibSyntax.map (·.var)).filter fun v => !totalityProved.contains v
+
+set_option maxRecDepth 16384 in
+/-- 43 of the 80 exported functions are proved total end to end, every one of them is an entry of the
+regenerated syntax table, and these 37 are not (regenerated: a function added to cty/function/stdlib shows
+up in the second list and fails this theorem until the list is updated) -/
+theorem totality_bookkeeping :
+    totalityProved.length = 43 ∧ totalityProved.all (fun v => (Generated.stdlibSyntax.map (·.var)).contains v) = true ∧
+    totalityOnlySearched =
+      ["BytesLenFunc", "BytesSliceFunc", "CSVDecodeFunc", "CoalesceFunc", "ConcatFunc", "ContainsFunc",
+       "DistinctFunc", "ElementFunc", "EqualFunc", "FlattenFunc", "FormatDateFunc", "FormatFunc", "FormatListFunc",
+       "GreaterThanFunc", "GreaterThanOrEqualToFunc", "JSONDecodeFunc", "JSONEncodeFunc", "JoinFunc", "LengthFunc",
+       "LessThanFunc", "LessThanOrEqualToFunc", "LookupFunc", "MergeFunc", "NotEqualFunc", "ParseIntFunc",
+       "RegexAllFunc", "RegexFunc", "SetHasElementFunc", "SetIntersectionFunc", "SetProductFunc",
+       "SetSubtractFunc", "SetSymmetricDifferenceFunc", "SetUnionFunc", "SliceFunc", "SortFunc", "StrlenFunc",
+       "ZipmapFunc"] := by
+  refine ⟨by decide, by decide, by decide⟩
 
 /-! ### the hypotheses are satisfiable -/
 
